@@ -137,6 +137,7 @@ def do_edit(rng, mid):
             names += ['msg.time=', 'msg.attr=', 'msg.tempo=', 'track.pop', 'track.slice=', 'track.setitem',
                       'track.swap', 'msg.time=', 'msg.attr=', 'track.setitem'] * 2
             names += ['msg.time=float', 'insert-realtime', 'fix-unstorable', 'fix-unstorable']
+            names += ['append-same-object', 'track*2', 'track+track', 'append-same-object']
     if rng.random() < 0.03:
         names = ['tracks.clear']
     e = rng.choice(names)
@@ -212,6 +213,15 @@ def do_edit(rng, mid):
             m.data += (1,)
         elif m.type == 'set_tempo':
             m.tempo = rng.randrange(1, 2 ** 24)
+    elif e == 'append-same-object':
+        tr = rng.choice(ne)
+        tr.append(rng.choice(tr))                 # the same Message object twice in the track
+    elif e == 'track*2':
+        i = rng.randrange(len(tracks))
+        tracks[i] = tracks[i] * 2
+    elif e == 'track+track':
+        i = rng.randrange(len(tracks))
+        tracks[i] = tracks[i] + rng.choice(tracks)
     elif e == 'msg.time=float':
         # not storable: save() must refuse; a later edit repairs it
         tr = max(ne, key=len)
@@ -281,6 +291,46 @@ def history(ctx, seed, maxsteps):
     return nontrivial
 
 
+def loaded_vs_built(ctx, seed, nrep):
+    """A file LOADED from bytes and a file BUILT in memory from the same events get the same edits by
+    position; every observation must agree (the reader must hand out independent message objects)."""
+    rng = random.Random(seed)
+    case = {'kind': 'loaded-vs-built', 'seed': seed, 'events': nrep}
+    def build():
+        mid = MidiFile(type=1, ticks_per_beat=480)
+        tr = MidiTrack()
+        for i in range(nrep):
+            # a drum groove: a handful of identical events over and over
+            tr.append(Message('note_on', channel=9, note=(36, 38, 42, 42)[i % 4], velocity=100, time=(0, 120)[i % 2]))
+            tr.append(Message('note_off', channel=9, note=(36, 38, 42, 42)[i % 4], velocity=0, time=120))
+        mid.tracks.append(tr)
+        return mid
+    built = build()
+    buf = io.BytesIO()
+    built.save(file=buf)
+    loaded = MidiFile(file=io.BytesIO(buf.getvalue()))
+    built.tracks[0].append(mido.MetaMessage('end_of_track'))       # the reader adds what save() appended
+    log = []
+    for step in range(4):
+        i = rng.randrange(len(built.tracks[0]) - 1)
+        what = rng.choice(('note', 'time', 'velocity'))
+        for f in (built, loaded):
+            m = f.tracks[0][i]
+            if what == 'note':
+                m.note = (m.note + 7) % 128
+            elif what == 'time':
+                m.time = m.time + 3
+            else:
+                m.velocity = (m.velocity + 1) % 128
+        log.append([what, i])
+        for obs in ('length', 'save', 'iter'):
+            a, b = observe(loaded, obs, seed), observe(built, obs, seed)
+            ctx.check('observation == fresh twin', a == b, f'loaded-differs-from-built:{obs}', case,
+                      lambda: {'edits': log, 'observation': obs, 'loaded': repr(a)[:120], 'built': repr(b)[:120]})
+            if a != b:
+                return
+
+
 def run(ctx):
     n = 0
     nh = 400 if ctx.tier == 'quick' else 40000
@@ -290,10 +340,19 @@ def run(ctx):
         if history(ctx, seed, maxsteps):
             ctx.nontrivial(('h', seed))
         n += 1
+    sizes = (50, 2000, 8200, 8300, 12000)          # 8 bytes per pair: 8 200 pairs ~ 65.6 KB track chunk
+    for si, nrep in enumerate(sizes):
+        if si % ctx.nshards == ctx.shard:
+            loaded_vs_built(ctx, f'{ctx.seed}:{ctx.shard}:lvb{nrep}', nrep)
+            ctx.nontrivial(('lvb', nrep))
+            n += 1
     ctx.count('cases', n)
     ctx.put_sample({'history': ['edit:tracks.append', 'obs:iter', 'edit:msg.tempo=', 'obs:length', 'obs:partial-play',
                                 'edit:track.setitem', 'obs:play'], 'note': 'shape of a generated history'})
 
 
 def replay(ctx, case):
-    history(ctx, case['seed'], case['maxsteps'])
+    if case['kind'] == 'loaded-vs-built':
+        loaded_vs_built(ctx, case['seed'], case['events'])
+    else:
+        history(ctx, case['seed'], case['maxsteps'])
